@@ -127,6 +127,43 @@ def run(ck):
             if il != ml:
                 dis += 1
                 if dis <= 3: ck.broken.append({"kind": "correspondence", "name": "corr_rx", "chunks": [hexs(c) for c in chunks], "impl": il, "model": ml})
+    # outside low-level debug mode: the same splitting feeds the type dispatcher; packets of 1-4 messages of types that reach
+    # a user queue unconditionally (README table), sender depth 0-3, escaped bytes: each message is in its queue once, in
+    # stream order, byte-identical (the data-byte offset behind the address stack is what the dispatcher computes per depth)
+    MSGQ = [0x82, 0x83, 0x84, 0x85, 0x87, 0x94, 0x95, 0xB9, 0xC6, 0xC8, 0xC9, 0xCA, 0xE4, 0xA5, 0xA8]; ERRQ = [0x86, 0x8B, 0x91, 0xC1]
+    nn = 600 if quick else 20000; ncases = []
+    for _ in range(nn):
+        pk = []
+        for _p in range(r.range(1, 3)):
+            msgs = []
+            for _m in range(r.range(1, 4)):
+                depth = r.choice([0, 1, 2, 3, 3]); addr = [r.range(1, 255) for _ in range(depth)]
+                ty = r.choice(MSGQ + ERRQ)
+                data = [r.choice(SPECIAL) if r.chance(1, 6) else r.below(256) for _ in range(r.choice([9, 10, 12, 16]))]
+                if ty == 0x86: data[0] = r.choice([0x00, 0x01, 0x02, 0x03, 0x10, 0x11, 0x12, 0x20, 0x21, 0x22, 0x30]); data[1] = r.below(7)
+                msgs.append(flowgen.upmsg(addr, r.below(256), ty, data))
+            pk.append(msgs)
+        ncases.append(pk)
+    L = ["start 0 - 0", "logw 0"]
+    for i, pk in enumerate(ncases):
+        L += ["case n%d" % i, "discard q", "discard e"]
+        for msgs in pk: L.append("rx " + hexs(frame([b for m in msgs for b in m])))
+        L += ["drain q", "drain e"]
+    rcn, outn, errn = vlib.run_driver(exe, "\n".join(L) + "\n", timeout=900)
+    impln = vlib.split_cases(outn); nbad = 0; depth3 = 0
+    for i, pk in enumerate(ncases):
+        flat = [m for msgs in pk for m in msgs]
+        depth3 += sum(1 for m in flat if m[1] and m[2] and m[3])
+        expq = ["q " + hexs(m) for m in flat if m[m.index(0, 1) + 2] in MSGQ] + ["q none"]
+        expe = ["e " + hexs(m) for m in flat if m[m.index(0, 1) + 2] in ERRQ] + ["e none"]
+        il = impln.get("n%d" % i)
+        if il is None:
+            ck.violation("receiver-crash", {"property": "C02", "mode": "normal", "script": L[:2] + ["rx " + hexs(frame([b for m in msgs for b in m])) for msgs in pk], "rc": rcn, "stderr": errn[-1500:]}); nbad += 1; break
+        if [l for l in il if l[:2] in ("q ", "e ")] != expq + expe:
+            nbad += 1
+            ck.violation("delivery-mismatch.normal-mode", {"property": "C02", "script": ["start 0 - 0", "discard q", "discard e"] + ["rx " + hexs(frame([b for m in msgs for b in m])) for msgs in pk] + ["drain q", "drain e"],
+                         "expected": expq + expe, "delivered": il, "reason": "outside debug mode a message of a CRC-valid packet did not reach its queue exactly once, in order and byte-identical"})
+    ck.oblige("normal mode: every message of %d good packets-sequences (depth 0-3, %d messages from depth-3 senders) reaches its user queue once, in order, byte-identical" % (nn, depth3), nbad == 0, "%d mismatches" % nbad)
     ck.oblige("correspondence corr_rx (impl == model on %d streams)" % evals, dis == 0, "%d disagreements" % dis)
     ck.oblige("reference decoder agrees with implementation deliveries", orc == 0, "%d mismatches" % orc)
     ck.coverage.update({"evaluations": evals, "distinct_nontrivial": nontrivial, "distribution": dist, "routed_to_C12_by_model_fault": routed,
